@@ -26,6 +26,12 @@ CHECKS.update({
    note='Trusted: as C06; Trace.append/np.hstack run for real on object arrays. Repeated solves, reset=True and multi-period solve() with tracing are outside the claim.'),
 })
 
+CHECKS.update({
+ 'C01': dict(cat='translation_validation', ref='4/C01', tech='per enumerated script: real parse_model+build_model, generated _evaluate(t) executed symbolically on z3 arrays (symbolic cells, t, L) and compared with an AST reference interpreter by z3 array equality; IEEE/UF witness + concrete replay',
+   text='Translation validation of the script-to-Python generator: for every program of a bounded-exhaustive family (expression trees <=3 nodes quick, <=4 thorough, conditional shapes, fixed multi-equation programs) plus seeded samples, z3 shows for ALL cell values, ALL feasible periods t (both spellings) and ALL span lengths L that the generated _evaluate and the normalised equation text compute exactly what an independent AST interpreter computes, write only the left-hand sides and access every series at t+k inside the span. The program dimension is enumerated, not solver-quantified (regex tokeniser not encodable).',
+   note='Trusted: symx engine and ZSeries (z3 array with NumPy index semantics), renderer (self-checked against Python ast), reference interpreter; arithmetic uninterpreted (sound), counterexamples replayed on real float64 arrays. Outside: verbatim blocks, named-period indexes, names used as function and variable.'),
+})
+
 NOT_APPLICABLE = [
  ('C11', 'Independence of copies is a statement about object identity in the CPython heap; there is no input value to make symbolic, so a solver has nothing to decide (pointer-rich heaps are a weak target of the technique).'),
  ('C13', "Quantifies over strings only; everything it depends on sits behind CPython's re engine (look-ahead, \\b, lazy quantifiers, alternative priority), str.format and exec, none of which can be executed symbolically here (z3 regex theory lacks them; CrossHair's regex model is unsound on term_re and times out on split_equations)."),
